@@ -117,11 +117,9 @@ def _parse_atom(p):
                     raise Unsupported("bad range")
                 ranges.append((lo, hi))
             else:
-                if c == "-" and False:
-                    pass
                 ranges.append((lo, lo))
         return ("cls", neg, ranges)
-    if c in META:
+    if c in META and c != "-":
         raise Unsupported("metachar " + c)
     return ("chr", c)
 
@@ -148,8 +146,6 @@ def _ends(node, s, i, fl):
             ch = s[i]
             cands = {ch, ch.lower(), ch.upper()} if "i" in fl else {ch}
             hit = any(lo <= c <= hi for c in cands for lo, hi in node[2])
-            if "i" in fl and not hit:
-                hit = any(lo.lower() <= ch.lower() <= hi.lower() for lo, hi in node[2] if lo == hi)
             if hit != node[1]:
                 yield i + 1
     elif t == "seq":
